@@ -23,6 +23,32 @@ pub fn build_tsut(spec: &SearcherSpec) -> Result<TSut, String> {
             MKind::LeftmostLongest => packed::MatchKind::LeftmostLongest,
             _ => packed::MatchKind::LeftmostFirst,
         };
+        let mut cfg = packed::Config::new();
+        cfg.match_kind(kind);
+        match spec.packed_cfg {
+            1 => {
+                cfg.only_rabin_karp(true);
+            }
+            2 => {
+                cfg.only_teddy(true);
+            }
+            3 => {
+                cfg.only_teddy(true).only_teddy_fat(Some(true));
+            }
+            4 => {
+                cfg.only_teddy(true).only_teddy_256bit(Some(false));
+            }
+            5 => {
+                cfg.heuristic_pattern_limits(false);
+            }
+            _ => {}
+        }
+        let mut b = cfg.builder();
+        b.extend(spec.patterns.iter());
+        if let Some(s) = b.build() {
+            return Ok(TSut::Packed(s));
+        }
+        // the forced configuration is unavailable for these patterns / this CPU: default one
         let mut b = packed::Config::new().match_kind(kind).builder();
         b.extend(spec.patterns.iter());
         b.build().map(TSut::Packed).ok_or_else(|| "packed searcher not built".to_string())
